@@ -23,6 +23,7 @@ type GenCfg struct {
 	LenCap            int  // > 0: collections never have an unbounded maximum length (keeps recordings of nested collections small)
 	CustomNonFatal    bool // Custom bodies may signal non-fatally (verdict-only checks)
 	CleanupBeforeSkip bool // Custom bodies register a (non-signalling) cleanup before the part that may skip (C10)
+	PredSignals       bool // Filter predicates may raise a fatal signal / panic on the T of the property
 }
 
 func pick[T any](dt *drv.T, label string, xs ...T) T {
@@ -541,10 +542,25 @@ func GenGenSpec(dt *drv.T, cfg GenCfg) *GenSpec {
 	case "deferred":
 		return &GenSpec{K: "deferred", Sub: []*GenSpec{GenGenSpec(dt, sub)}}
 	case "mapped":
-		return &GenSpec{K: "mapped", Sub: []*GenSpec{GenGenSpec(dt, sub)}}
+		s := &GenSpec{K: "mapped", Sub: []*GenSpec{GenGenSpec(dt, sub)}}
+		if cfg.PredSignals && chance(dt, "mapsig", 15) {
+			// the mapping function raises a failure for some of its arguments
+			s.FM = int64(drv.IntRange(2, 9).Draw(dt, "sm"))
+			s.FC = int64(drv.IntRange(0, int(s.FM)-1).Draw(dt, "sc"))
+			s.SigKind = pick(dt, "sigkind", hardSigKinds...)
+			s.SigSite = drv.IntRange(0, 11).Draw(dt, "site")
+		}
+		return s
 	case "filter":
 		s := &GenSpec{K: "filter", Sub: []*GenSpec{GenGenSpec(dt, sub)}}
 		genPred(dt, s)
+		if cfg.PredSignals && chance(dt, "predsig", 20) {
+			s.Fn = "sig"
+			s.FM = int64(drv.IntRange(2, 9).Draw(dt, "sm"))
+			s.FC = int64(drv.IntRange(0, int(s.FM)-1).Draw(dt, "sc"))
+			s.SigKind = pick(dt, "sigkind", hardSigKinds...)
+			s.SigSite = drv.IntRange(0, 11).Draw(dt, "site")
+		}
 		return s
 	case "custom":
 		return genCustomSpec(dt, sub)
